@@ -757,7 +757,8 @@ LEVEL_TEXT = ("Proved in Lean 4, for ALL byte strings / chunkings / documents, a
               "NUL-free text gives the same value(), also when polled between chunks); rfc_accept/rfc_accept_chunked (every RFC 8259 text - grammar "
               "written from the RFC as an inductive relation: any white space, every number spelling, every escape incl. \\/ and surrogate pairs, "
               "duplicate keys, nesting <= 1000 - decodes to the value it denotes); int_literal_value (integer literals of EVERY length: at most 9 "
-              "characters - the split is read from the `_buffer.length() > N` of state INT on every run - give the int with exactly the decimal value; longer "
+              "characters - the model's state INT uses the N read from `_buffer.length() > N` in the source on every run, so rfc_accept itself "
+              "(whose RFC side says 9) stops building when the source's split changes - give the int with exactly the decimal value; longer "
               "ones give the double of atof on the lexeme, which is exactly +-n below 2^53, +-(n rounded to the nearest multiple of its binary64 spacing, "
               "ties to even) from 2^53 to 2^1024, +-infinity above; so the sign is the literal's sign and 9223372036854775808 is 2^63); prefix_reject (every text that stops before the final closing "
               "byte of a top-level array, object or string is rejected, wherever the cut falls; via a frame lemma: a run that does not fault "
@@ -769,6 +770,8 @@ LEVEL_NOTE = ("All four planned theorem groups are proved in full (no _partial).
               "int_literal_value states correct rounding on the grid of multiples of 2^(floor(log2 n)-52) with a 53-bit significand; that this grid is the set of "
               "binary64 values around n is the definition of the format, not a separate theorem. Fraction/exponent literals are covered by K + python only "
               "(general correct rounding of Strtod.roundRatio is not formalised). "
+              "myatoiz itself (src/String.cpp, y = 10*y + (c-'0')) is transcribed by hand in AslModel.Xdl.myatoiz: translate() only checks that state INT calls "
+              "myatoiz, so a change of its body is visible to K only. "
               "XDL-only syntax (bare identifiers, class names, comments, newline separators) has no independent grammar: covered by "
               "parse_safe/chunk_indep and K only. Hypotheses carried by K rather than proved: glibc atof = correctly rounded (AslModel/Strtod.lean), "
               "strtoul on the 4-byte \\u accumulator, C locale, Var/String/Array container semantics (C01-C04). "
